@@ -84,6 +84,19 @@ def _trees_block(rng, labs, title=None, link=None, translate=False):
 
 def _matrix_rows(rng, labs, rows, interleave, nchar):
     out = ""
+    if rows and isinstance(next(iter(rows.values())), list):
+        # continuous values: whitespace separated
+        if interleave and nchar >= 2:
+            cut = rng.randint(1, nchar - 1)
+            for l in labs:
+                out += "    %s  %s\n" % (gen.nexus_quote(l), " ".join(rows[l][:cut]))
+            out += "\n"
+            for l in labs:
+                out += "    %s  %s\n" % (gen.nexus_quote(l), " ".join(rows[l][cut:]))
+        else:
+            for l in labs:
+                out += "    %s  %s\n" % (gen.nexus_quote(l), " ".join(rows[l]))
+        return out
     if interleave and nchar >= 2:
         cut = rng.randint(1, nchar - 1)
         for l in labs:
@@ -105,6 +118,9 @@ def _chars_block(rng, labs, data_type, kind="CHARACTERS", title=None, link=None,
     elif data_type == "protein":
         rows = gen.sequences(rng, labs, nchar, gen.PROTEIN_SYMBOLS.replace("*", ""))
         fmt = "DATATYPE=PROTEIN MISSING=? GAP=-"
+    elif data_type == "continuous":
+        rows = dict((l, [rng.choice(["0.5", "1", "-2.25", "3e-2", "10.0"]) for _ in range(nchar)]) for l in labs)
+        fmt = "DATATYPE=CONTINUOUS"
     else:
         rows = gen.sequences(rng, labs, nchar, "01?-", easy=0.8)
         fmt = "DATATYPE=STANDARD SYMBOLS=\"01\" MISSING=? GAP=-"
@@ -132,7 +148,7 @@ def nexus_doc(rng, size):
     style = rng.choice(["plain", "alpha", "under", "quoted", "spaced"])
     labs = gen.labels(rng, ntax, style)
     head = "#NEXUS\n" + _maybe(rng, "[written by dsim]\n", 0.3)
-    data_type = rng.choice(["dna", "standard", "dna", "protein"])
+    data_type = rng.choice(["dna", "standard", "dna", "protein", "continuous"])
     if kind == "trees":
         text = head + _taxa_block(rng, labs) + _trees_block(rng, labs)
         content = "trees"
@@ -196,9 +212,16 @@ def phylip_doc(rng, size):
         text += "\n"
         for l in labs:
             text += rows[l][cut:] + "\n"
+    kw = {"strict": variant.startswith("strict"), "interleaved": inter}
+    if not kw["strict"]:
+        if rng.random() < 0.3:
+            kw["multispace_delimiter"] = True       # labels are followed by two spaces in the relaxed templates
+        if rng.random() < 0.3:
+            kw["underscores_to_spaces"] = True
+    if rng.random() < 0.15:
+        kw["ignore_invalid_chars"] = True
     return {"schema": "phylip", "text": text, "content": "chars", "data_type": data_type,
-            "template": "phylip/%s" % variant,
-            "kwargs": {"strict": variant.startswith("strict"), "interleaved": inter}}
+            "template": "phylip/%s" % variant, "kwargs": kw}
 
 
 def fasta_doc(rng, size):
